@@ -257,7 +257,11 @@ def gen_amount(rng: random.Random, is_ref: bool, units: List[str]) -> Any:
         # quantity
         form = rng.random()
         if form < 0.35:
-            return {"q": [c.num_json(v), None, "", ""], "explicit": rng.random() < 0.2, "numtxt": txt}
+            explicit = rng.random() < 0.25
+            # an explicit unit-less quantity may carry a preposition ("{2} of the eggs"); an implicit one cannot
+            # (it would read as a proportion)
+            prep = rng.choice(["", " of", " of the", "\tof"]) if explicit else ""
+            return {"q": [c.num_json(v), None, "", prep], "explicit": explicit, "numtxt": txt}
         if form < 0.8:
             u = rng.choice(units)
             u = re.sub(r" ", lambda m: rng.choice([" ", "  ", "\t"]), u)
